@@ -20,7 +20,10 @@ def make_ws(base, shape):
     open(os.path.join(ws, "grog.toml"), "w").write(f"num_workers = {WORKERS[shape]}\n")
     targets = []
     for t, deps in SHAPES[shape].items():
-        cmd = (f'echo "S {t} $$" >> "$GROG_WORKSPACE_ROOT/../trace"\n'
+        # the commands tolerate a polite termination: on TERM they leave a partial output behind and exit 0 (a clean-up idiom).
+        # grog kills its shells outright, so this never runs on a conforming tree; it makes "interrupted" and "exit 0" separable
+        cmd = (f'trap \'echo partial > {t}.out; echo "T {t}" >> "$GROG_WORKSPACE_ROOT/../trace"; exit 0\' TERM\n'
+               f'echo "S {t} $$" >> "$GROG_WORKSPACE_ROOT/../trace"\n'
                f'while [ -f "$GROG_WORKSPACE_ROOT/../slow_{t}" ]; do sleep 0.05; done\n'
                f'{{ echo {t}; cat {t}.in {" ".join(d + ".out" for d in deps)}; }} | sha256sum > {t}.out\n'
                f'echo "E {t}" >> "$GROG_WORKSPACE_ROOT/../trace"')
